@@ -344,5 +344,5 @@ func init() {
 	RegisterProp("C08", func(c *Ctx) { c08All(c, c08PropOp) })
 }
 
-var c08PropOp = ""
+var c08PropOp = "C08.prop.no_escalation"
 var _ = rand.Int
